@@ -18,6 +18,8 @@ from ..symexpr import NotSymbolic, SymEval, Term, affine_in, close, func
 from ..unittables import SETTINGS, UNIT_TYPES_PY, module_const, unit_standard
 from . import common as K
 
+from . import C04 as _C04
+
 LEVEL_TEXT = ("static analysis (ast): symbolic normal forms of all pairwise temperature formulas and of the "
               "generic logarithmic maps, plus algebraic closure checks over every row of the conversion table, "
               "compared with the standard scale relations and reference levels; holds for all magnitudes at once "
@@ -443,6 +445,10 @@ def r6_tables_agree(ctx):
     ctx.form(ok, q, "Quantity._convert", "first claiming type converts; no claiming type is an error")
 
 
+def r7_failed_conversion(ctx):
+    _C04.r4_atomic_to(ctx)
+
+
 RULES = [
     ("C05.R1", "each pairwise temperature method is the affine map alpha*v+beta required by the standard scale relations and the tabulated unit factors (tolerance 1e-9)", r1_temperature_formulas),
     ("C05.R2", "every ordered temperature pair the type claims (touching Cel/degF, identity included) has a conversion method; a missing method is an error", r2_temperature_complete),
@@ -450,4 +456,5 @@ RULES = [
     ("C05.R4", "exponent and reference level of every documented logarithmic unit given the tabulated factor of its linear unit", r4_reference_levels),
     ("C05.R5", "level addition/subtraction is log10(10^(a m) +- 10^(b m))/m after bringing b to a's unit; dimension and unit guards raise", r5_level_addition),
     ("C05.R6", "process lists equal the table rows naming the class; special types precede the standard type; first claiming type wins", r6_tables_agree),
+    ("C05.R7", "a refused temperature/logarithmic conversion leaves the quantity untouched (store-before-raise path rule of to(), shared with C04.R4)", r7_failed_conversion),
 ]
